@@ -7,6 +7,7 @@
 //!   VERIF_OUT       path of the result JSON
 
 mod clients;
+mod crash;
 mod gen;
 mod oracle;
 mod provision;
@@ -84,6 +85,9 @@ fn main() {
     });
     seams::disable();
     let mut result = result;
+    if scenario == "crash:C08" && result.get("plan").is_some() && std::env::var("VERIF_PRINT_PLAN").is_err() {
+        restart_from_every_snapshot(seed, &mut result);
+    }
     result["wall_ms"] = serde_json::json!(wall0.elapsed().as_millis() as u64);
     let out = serde_json::to_vec(&result).unwrap();
     match std::env::var("VERIF_OUT") {
@@ -95,4 +99,87 @@ fn main() {
     }
     // the agent's tasks are still alive; leave without running destructors
     unsafe { libc::_exit(0) };
+}
+
+/// C08 phase 2: restart the agent from every crash-point snapshot of phase 1, each in a fresh process.
+fn restart_from_every_snapshot(seed: u64, result: &mut serde_json::Value) {
+    use serde_json::json;
+    let n = crash::snapshot_count().min(2000);
+    let exe = std::env::current_exe().expect("current exe");
+    let corrupted: Vec<String> = Vec::new();
+    let mut violations: Vec<serde_json::Value> = result["violations"].as_array().cloned().unwrap_or_default();
+    let mut restarts = 0u64;
+    let mut errors = Vec::new();
+    let mut distinct: std::collections::BTreeSet<String> = std::collections::BTreeSet::new();
+    let mut samples = Vec::new();
+    let corrupted_env = result["c08_corrupted"].as_array().map(|a| a.iter().filter_map(|x| x.as_str()).collect::<Vec<_>>().join(",")).unwrap_or_default();
+    let _ = corrupted;
+    for k in 0..n {
+        let dir = format!("/verif/.build/nsroot/scratch/snaps/{}", k);
+        let label = std::fs::read_to_string(format!("{}/label.txt", dir)).unwrap_or_default();
+        // identical (disk, host) states need one restart only
+        let sig = {
+            let mut h = std::fs::read_to_string(format!("{}/host.json", dir)).unwrap_or_default();
+            let mut names: Vec<String> = std::fs::read_dir(format!("{}/keys", dir)).map(|rd| rd.flatten().map(|e| format!("{}:{:?}", e.file_name().to_string_lossy(), std::fs::read(e.path()).map(|d| vrt::rng::mix(d.len() as u64, d.iter().fold(0u64, |a, b| a.wrapping_mul(131).wrapping_add(*b as u64)))).unwrap_or(0))).collect()).unwrap_or_default();
+            names.sort();
+            h.push_str(&names.join("|"));
+            h
+        };
+        if !distinct.insert(sig) {
+            continue;
+        }
+        for d in ["/var/lib/azure-proxy-agent", "/var/log/azure-proxy-agent"] {
+            let _ = std::fs::remove_dir_all(d);
+        }
+        let out = "/verif/.build/nsroot/scratch/restart.json";
+        let _ = std::fs::remove_file(out);
+        let st = std::process::Command::new(&exe)
+            .env_clear()
+            .env("PATH", "/nonexistent")
+            .env("VERIF_SEED", vrt::rng::mix(seed, k).to_string())
+            .env("VERIF_SCENARIO", "crash:C08-restart")
+            .env("VERIF_SNAPSHOT", &dir)
+            .env("VERIF_C08_CORRUPTED", &corrupted_env)
+            .env("VERIF_OUT", out)
+            .stdin(std::process::Stdio::null())
+            .stdout(std::process::Stdio::null())
+            .stderr(std::process::Stdio::null())
+            .status();
+        restarts += 1;
+        match (st, std::fs::read(out).ok().and_then(|d| serde_json::from_slice::<serde_json::Value>(&d).ok())) {
+            (Ok(s), Some(r)) if s.success() => {
+                if let Some(vs) = r["violations"].as_array() {
+                    for v in vs {
+                        let mut v = v.clone();
+                        v["detail"] = json!(format!("restart from crash point {} ({}): {}", k, label, v["detail"].as_str().unwrap_or("")));
+                        violations.push(v);
+                    }
+                }
+                if let Some(ps) = r["panics"].as_array() {
+                    for p in ps {
+                        violations.push(json!({"property": "C13", "class": format!("panic at {}", p["at"].as_str().unwrap_or("")), "detail": format!("restart from crash point {} ({}): {}", k, label, p["msg"].as_str().unwrap_or("")), "seq": 0}));
+                    }
+                }
+                if samples.len() < 2 {
+                    samples.push(json!({"crash_point": k, "label": label, "after_restart": r["progress"], "notes": r["notes"]}));
+                }
+            }
+            (st, _) => errors.push(format!("restart {} failed: {:?}", k, st.map(|s| s.code()))),
+        }
+    }
+    result["violations"] = json!(violations);
+    result["verdict"] = json!(if result["violations"].as_array().map(|a| a.is_empty()).unwrap_or(true) { "ok" } else { "violation" });
+    result["stats"]["c08.restarts"] = json!(restarts);
+    result["stats"]["c08.distinct_crash_states"] = json!(distinct.len());
+    result["progress"]["restarts"] = json!(restarts);
+    if !errors.is_empty() {
+        let mut notes = result["notes"].as_array().cloned().unwrap_or_default();
+        for e in errors.iter().take(5) {
+            notes.push(json!(format!("HARNESS-PANIC {}", e)));
+        }
+        result["notes"] = json!(notes);
+    }
+    if let Some(s) = result["samples"].as_array_mut() {
+        s.extend(samples);
+    }
 }
